@@ -180,7 +180,8 @@ package flags
 //@   loop 1 invariant nfails(convert) == old(nfails(convert))
 //@   loop 1 invariant len(old(p.positional)) - len(p.positional) <= len(old(args)) - len(args)
 //@   loop 1 invariant forall(k, 0, len(old(args)) - len(args), callarg(convert, old(ncalls(convert)) + k, 0) == old(args)[k])
-//@   loop 1 invariant forall(k, 0, len(old(args)) - len(args), callarg(convert, old(ncalls(convert)) + k, 1) == old(p.positional)[ite(k < len(old(p.positional)) - len(p.positional), k, len(old(p.positional)) - len(p.positional))].value)
+//@   loop 1 invariant forall(k, 0, len(old(p.positional)) - len(p.positional), callarg(convert, old(ncalls(convert)) + k, 1) == old(p.positional)[k].value)
+//@   loop 1 invariant forall(k, len(old(p.positional)) - len(p.positional), len(old(args)) - len(args), callarg(convert, old(ncalls(convert)) + k, 1) == old(p.positional)[len(old(p.positional)) - len(p.positional)].value)
 //@   loop 1 invariant forall(k, 0, len(old(p.positional)) - len(p.positional), !isRem(old(p.positional)[k]))
 //@   loop 1 invariant len(old(p.positional)) - len(p.positional) < len(old(args)) - len(args) ==> len(p.positional) > 0 && isRem(p.positional[0])
 //@   loop 1 decreases len(args)
@@ -195,7 +196,8 @@ package flags
 //@   ensures[C03] err == nil ==> forall(i, 0, len(old(p.retargs)), p.retargs[i] == old(p.retargs)[i])
 //@   ensures[C03] err == nil ==> forall(j, 0, len(args) - (ncalls(convert) - old(ncalls(convert))), p.retargs[len(old(p.retargs)) + j] == args[ncalls(convert) - old(ncalls(convert)) + j])
 //@   ensures[C03,C10] err == nil && ncalls(convert) - old(ncalls(convert)) < len(args) ==> len(p.positional) == 0
-//@   ensures[C10] forall(k, 0, ncalls(convert) - old(ncalls(convert)), callarg(convert, old(ncalls(convert)) + k, 1) == old(p.positional)[ite(k < len(old(p.positional)) - len(p.positional), k, len(old(p.positional)) - len(p.positional))].value)
+//@   ensures[C10] forall(k, 0, len(old(p.positional)) - len(p.positional), callarg(convert, old(ncalls(convert)) + k, 1) == old(p.positional)[k].value)
+//@   ensures[C10] forall(k, len(old(p.positional)) - len(p.positional), ncalls(convert) - old(ncalls(convert)), callarg(convert, old(ncalls(convert)) + k, 1) == old(p.positional)[len(old(p.positional)) - len(p.positional)].value)
 //@   ensures[C10] same(p.positional, old(p.positional)[len(old(p.positional))-len(p.positional):]) && len(p.positional) <= len(old(p.positional))
 //@   ensures p.arg == old(p.arg) && same(p.args, old(p.args))
 //@   assigns p.positional, p.retargs, p.err
